@@ -259,3 +259,27 @@ def physical(snap, path, depth=0):
             return physical(snap, os.path.normpath(base) + '/' + rest, depth + 1)
         cur = nxt
     return cur or '/'
+
+
+def kresolve(snap, path, depth=0):
+    """the path the KERNEL resolves `path` to against a snapshot: components are walked left to right, '.' and '' dropped, '..' goes to
+    the parent of where we physically are, a symbolic link in a non-final position is followed (the final component is not)"""
+    if not path.startswith('/') or depth > 30:
+        return path
+    comps = path.split('/')
+    cur = ''
+    for i, c in enumerate(comps):
+        if c in ('', '.'):
+            continue
+        if c == '..':
+            cur = cur.rsplit('/', 1)[0]
+            continue
+        nxt = cur + '/' + c
+        v = snap.get(nxt)
+        last = all(x in ('', '.') for x in comps[i + 1:])
+        if v is not None and v[0] == 'l' and not last:
+            tgt = v[2]
+            base = tgt if tgt.startswith('/') else cur + '/' + tgt
+            return kresolve(snap, base + '/' + '/'.join(comps[i + 1:]), depth + 1)
+        cur = nxt
+    return cur or '/'
